@@ -55,6 +55,19 @@ def generate():
     need(t, r"s\.rsplit_once\(':'\)", "socket address split", so)
     need(t, r"bracketed_addr\[1\.\.bracketed_addr\.len\(\) - 1\]", "bracket slice", so)
 
+    tx = "crates/scion-stack/src/resolver/txt.rs"
+    t = src(tx)
+    m = need(t, r'const SCION_TXT_PREFIX: &str = "([^"]+)";', "SCION_TXT_PREFIX", tx)
+    txt_prefix = m.group(1) if m else ""
+    need(t, r"let mut remaining = payload\.trim\(\);", "payload trim", tx)
+    need(t, r"\.find\('\]'\)", "find ']'", tx)
+    need(t, r"let entry = remaining\[1\.\.close_idx\]\.trim\(\);", "entry slice", tx)
+    need(t, r"let rest = remaining\[close_idx \+ 1\.\.\]\.trim\(\);", "rest slice", tx)
+    need(t, r"\.split_once\(','\)", "entry split", tx)
+    need(t, r"IsdAsn::from_str\(isd_asn_str\.trim\(\)\)\?", "TXT ISD-AS parse", tx)
+    need(t, r"IpAddr::from_str\(host_str\.trim\(\)\)\?", "TXT host parse", tx)
+    need(t, r"remaining = rest\[1\.\.\]\.trim\(\);", "advance", tx)
+
     def lit(s): return "[" + "; ".join(str(b) for b in s.encode()) + "]"
     body = f"""From Coq Require Import NArith List.
 Import ListNotations.
@@ -73,5 +86,6 @@ Definition SVC_MCAST : N := {mc}.
 Definition s_DS : list N := {lit(names['DAEMON'])}.
 Definition s_CS : list N := {lit(names['CONTROL'])}.
 Definition s_Wildcard : list N := {lit(names['WILDCARD'])}.
+Definition SCION_TXT_PREFIX : list N := {lit(txt_prefix)}.
 """
     emit("TextConfig.v", body)
